@@ -142,7 +142,7 @@ def spec_resolve(t, keys):
     return found, missing, nonmap, cur
 
 
-@harness('X5d', targets=[f'{DICTS}.resolve', f'{DICTS}.parse_field'], props=['C04', 'C16', 'C18', 'C17'],
+@harness('X5d', targets=[f'{DICTS}.resolve', f'{DICTS}.parse_field'], props=['C04', 'C16', 'C18', 'C17', 'C15'],
          clauses=['found_returns_value', 'missing_key', 'non_mapping', 'pure', 'parse_field'],
          canaries=['canary.never_raises', 'canary.always_default'],
          assumes=['X5d: documents are arbitrary JSON values (vc.json: any kind, any depth, string keys); paths of 0..3 arbitrary '
@@ -1267,7 +1267,7 @@ _E6_ASSUMES = ['E6/E6p: bodies are ARBITRARY JSON objects (any shape: corrupted 
 @harness('E6', targets=[f'{PROGRESS}.StatusProgressStorage.__init__', f'{PROGRESS}.StatusProgressStorage.fetch',
                         f'{PROGRESS}.StatusProgressStorage.store', f'{PROGRESS}.StatusProgressStorage.touch',
                         f'{PROGRESS}.NoWriteStatusProgressStorage.store', f'{PROGRESS}.NoWriteStatusProgressStorage.touch'],
-         props=['C16', 'C04', 'C02'],
+         props=['C16', 'C04', 'C02', 'C03', 'C11'],
          clauses=['configured_paths', 'fetch_own_record', 'fetch_no_data', 'fetch_corrupted_container_is_no_data', 'store_exact',
                   'touch_exact', 'body_untouched', 'nowrite_writes_nothing'],
          canaries=['canary.fetch_always_none', 'canary.store_keeps_patch', 'canary.touch_always_writes'],
@@ -1290,7 +1290,7 @@ def E6(vc):
 
 
 @harness('E6p', targets=[f'{PROGRESS}.StatusProgressStorage.purge', f'{PROGRESS}.StatusProgressStorage.clear'],
-         props=['C16', 'C04', 'C02'],
+         props=['C16', 'C04', 'C02', 'C03', 'C11'],
          clauses=['purge_exact', 'purge_complete', 'clear_exact', 'body_untouched'],
          canaries=['canary.purge_never_writes', 'canary.clear_is_identity'],
          trusted=_E6_TRUSTED, assumes=_E6_ASSUMES)
@@ -1520,7 +1520,7 @@ _E7_ASSUMES = ['E7/E7p: bodies are arbitrary JSON objects whose metadata / metad
 
 @harness('E7', targets=[f'{PROGRESS}.AnnotationsProgressStorage.__init__', f'{PROGRESS}.AnnotationsProgressStorage.fetch',
                         f'{PROGRESS}.AnnotationsProgressStorage.store'],
-         props=['C16', 'C04', 'C02'],
+         props=['C16', 'C04', 'C02', 'C03', 'C11'],
          clauses=['configured', 'keys_from_make_keys', 'fetch_decodes_own_annotation', 'fetch_first_present', 'store_encodes_record',
                   'store_every_key', 'store_marker', 'body_untouched'],
          canaries=['canary.fetch_always_none', 'canary.fetch_first_key_only', 'canary.store_one_key', 'canary.store_drops_nones'],
@@ -1545,7 +1545,7 @@ def E7(vc):
 
 
 @harness('E7p', targets=[f'{PROGRESS}.AnnotationsProgressStorage.purge', f'{PROGRESS}.AnnotationsProgressStorage.touch'],
-         props=['C16', 'C04', 'C02'],
+         props=['C16', 'C04', 'C02', 'C03', 'C11'],
          clauses=['keys_from_make_keys', 'purge_exact', 'purge_complete', 'purge_no_marker', 'touch_exact', 'touch_marker_iff_written',
                   'body_untouched'],
          canaries=['canary.purge_never_writes', 'canary.touch_always_writes'],
@@ -1594,7 +1594,7 @@ class SubStorage:
                         f'{PROGRESS}.SmartProgressStorage.__init__',
                         f'{DIFFBASE}.MultiDiffBaseStorage.fetch', f'{DIFFBASE}.MultiDiffBaseStorage.store',
                         f'{DIFFBASE}.MultiDiffBaseStorage.build', f'{DIFFBASE}.MultiDiffBaseStorage.__init__'],
-         props=['C16', 'C04', 'C02'],
+         props=['C16', 'C04', 'C02', 'C03', 'C11'],
          clauses=['fetch_first_found', 'fetch_stops_at_first', 'write_fans_out_to_all', 'clear_threads_through_all', 'build_threads_through_all',
                   'members_kept', 'smart_is_annotations_then_nowrite_status', 'arguments_passed'],
          canaries=['canary.fetch_asks_everyone', 'canary.always_found'],
@@ -1745,7 +1745,7 @@ class SymPatch:
                         f'{DIFFBASE}.AnnotationsDiffBaseStorage.store', f'{DIFFBASE}.AnnotationsDiffBaseStorage.build',
                         f'{DIFFBASE}.StatusDiffBaseStorage.__init__', f'{DIFFBASE}.StatusDiffBaseStorage.fetch',
                         f'{DIFFBASE}.StatusDiffBaseStorage.store', f'{DIFFBASE}.StatusDiffBaseStorage.build'],
-         props=['C16', 'C04', 'C03'],
+         props=['C16', 'C04', 'C03', 'C05', 'C14'],
          clauses=['configured', 'keys_from_make_keys', 'fetch_decodes_own_annotation', 'fetch_first_present', 'store_every_key', 'store_marker',
                   'build_removes_own_keys', 'status_fetch', 'status_store_exact', 'status_build_removes_own_field', 'body_untouched'],
          canaries=['canary.fetch_always_none', 'canary.store_one_key', 'canary.status_fetch_none', 'canary.status_build_identity'],
